@@ -253,7 +253,8 @@ def q_name(nm):
 
 
 def gen_history(rng):
-    crcs = [rng.getrandbits(32) for _ in range(2)] + [rng.choice([0, 1, 0xFFFFFFFF, 0x0000ABCD, 0xABCD0000])]
+    crcs = [rng.getrandbits(32) | (0x80000000 if rng.random() < 0.5 else 0) for _ in range(2)] + [rng.choice([0, 1, 0xFFFFFFFF, 0x80000000, 0x0000ABCD, 0xABCD0000])]
+    crcs.append(((1 << 32) - crcs[0]) & 0xFFFFFFFF)                     # the negated partner
     crcs.append(crcs[0] ^ (1 << rng.randrange(32)))
     crcs.append(crcs[0] & ((1 << (4 * rng.randint(1, 7))) - 1))      # hex digits are a suffix of crcs[0]'s
     ro_init = []
@@ -1411,6 +1412,81 @@ def gen_ro_unusable_cases(rng, count):
     return out
 
 
+def crc_pair_case(case):
+    """two sessions with DIFFERENT device tables (same element class) on one cache directory; the checksums announced
+    are a related pair (S, 2^32 - S), (S, S xor 0x80000000), top-bit / boundary values, hex-suffix pairs.  Through
+    the real TocFetcher + TocCache: each session's table must be its own device's, and the files stored must be named
+    by the 8-hex-digit UNSIGNED checksum."""
+    from cflib.crazyflie.toccache import TocCache
+    cls = case['cls']
+    root = mkdtemp()
+    try:
+        ro, rw = os.path.join(root, 'ro'), os.path.join(root, 'rw')
+        os.makedirs(ro)
+        os.makedirs(rw)
+        guard = None
+        for sn, sess in enumerate(case['sessions']):
+            items = [c03.ditem_unjson(d) for d in sess['items']]
+            if case.get('first_into_ro') and sn == 0:
+                cache = TocCache(rw_cache=ro)                     # the dist cache was produced with this device
+            else:
+                if case.get('first_into_ro') and guard is None:
+                    guard = RoGuard(ro)
+                cache = TocCache(ro_cache=ro, rw_cache=rw)
+            h, fins, exc, nreq = fetch_through_cache(cls, items, sess['crc'], cache, sess['ver'])
+            bad = ('callback raised %r' % (exc[0][1:],)) if exc else ('finished %d times' % fins) if fins != 1 else c03.check_table(cls, items, h)
+            if bad:
+                return {'class': 'table_of_another_checksum_used', 'case': case, 'observed': bad,
+                        'detail': 'session %d announcing 0x%08X (%d request(s); earlier sessions stored %s): %s' % (
+                            sn, sess['crc'], nreq, ['0x%08X' % x['crc'] for x in case['sessions'][:sn]], bad),
+                        'expected': 'a cached table is used only when the announced checksum equals the one it was stored under'}
+        names = sorted(os.listdir(ro) + os.listdir(rw))
+        want = sorted({'%08X.json' % (x['crc'] & 0xFFFFFFFF) for x in case['sessions']})
+        if sorted(set(names)) != want:
+            return {'class': 'cache_file_name_not_unsigned_hex8', 'case': case, 'observed': names,
+                    'detail': 'cache files %r, expected %r' % (names, want), 'expected': want}
+        d = guard.diff() if guard else None
+        return ro_failure(case, d) if d else None
+    finally:
+        shutil.rmtree(root, ignore_errors=True)
+
+
+def gen_crc_pair_cases(rng, count):
+    out = []
+    for k in range(count):
+        kind = ['negated', 'negated', 'topbit_flip', 'boundary', 'suffix', 'negated_small'][k % 6]
+        if kind == 'negated':
+            s1 = rng.randrange(0x80000001, 0xF0000000)
+            s2 = (1 << 32) - s1
+        elif kind == 'negated_small':
+            s1 = rng.randrange(0xF0000000, 0xFFFFFFFF)
+            s2 = (1 << 32) - s1
+        elif kind == 'topbit_flip':
+            s1 = rng.getrandbits(32) | 0x80000000
+            s2 = s1 ^ 0x80000000
+        elif kind == 'boundary':
+            s1, s2 = rng.choice([(0xFFFFFFFF, 1), (0x80000000, 0), (0x80000000, 0x7FFFFFFF), (0xFFFFFFFF, 0x7FFFFFFF), (0x80000001, 0x7FFFFFFF)])
+        else:
+            s1 = rng.getrandbits(32) | 0x90000000
+            s2 = s1 & ((1 << (4 * rng.randint(1, 7))) - 1)
+        if k % 2:
+            s1, s2 = s2, s1
+        cls = 'param' if k % 3 else 'log'
+        sessions = []
+        for c in (s1, s2) + ((s1,) if k % 4 == 0 else ()):
+            ver = rng.choice([3, 7])
+            prev = [x for x in sessions if x['crc'] == c]
+            items = prev[0]['items'] if prev else None
+            if items is None:
+                its = c03.gen_items(rng, cls, rng.choice([1, 2, 3]), ver >= 4)
+                for it in its:
+                    it['ext'] = False
+                items = [c03.ditem_json(i) for i in its]
+            sessions.append({'crc': c, 'ver': prev[0]['ver'] if prev else ver, 'items': items})
+        out.append({'kind': 'crc_pair', 'cls': cls, 'sessions': sessions, 'first_into_ro': k % 5 == 2, 'pair': kind})
+    return out
+
+
 def oracle_collision(case):
     li = [c03.ditem_unjson(d) for d in case['log']]
     pi = [c03.ditem_unjson(d) for d in case['param']]
@@ -1499,6 +1575,9 @@ def _run_case(case, rng):
     if case.get('kind') == 'collision':
         f = oracle_collision(case)
         return [f] if f else []
+    if case.get('kind') == 'crc_pair':
+        f = crc_pair_case(case)
+        return [f] if f else []
     if case.get('kind') == 'ro_sweep':
         f = ro_sweep_case(case)
         return [f] if f else []
@@ -1543,6 +1622,32 @@ def _run_case(case, rng):
     return fails
 
 
+def _guarded(fn):
+    """an exception inside one oracle case (e.g. a cache file that is not where the 8-hex-digit name says) is a
+    failure of THAT case, the other cases still run"""
+    def run(case, *a, **k):
+        try:
+            return fn(case, *a, **k)
+        except Exception as e:  # noqa
+            import traceback
+            return {'class': 'oracle_case_error', 'case': case, 'detail': '%s: %s | %s' % (type(e).__name__, e, traceback.format_exc()[-300:]),
+                    'observed': repr(e)}
+    run.__name__ = fn.__name__
+    return run
+
+
+vanished_case = _guarded(vanished_case)
+missing_field_case = _guarded(missing_field_case)
+ro_unusable_case = _guarded(ro_unusable_case)
+ro_sweep_case = _guarded(ro_sweep_case)
+crc_pair_case = _guarded(crc_pair_case)
+collision_empty_case = _guarded(collision_empty_case)
+hit_lookup_case = _guarded(hit_lookup_case)
+concurrent_case = _guarded(concurrent_case)
+crc_suffix_case = _guarded(crc_suffix_case)
+oracle_collision = _guarded(oracle_collision)
+
+
 def oracle(ctx, deep=False):
     rng = ctx.rng
     fails = []
@@ -1567,6 +1672,11 @@ def oracle(ctx, deep=False):
     for case in gen_collision_empty_cases(rng, ctx.scale(40, 300) * (2 if deep else 1)):
         n += 1
         f = collision_empty_case(case)
+        if f:
+            fails.append(f)
+    for case in gen_crc_pair_cases(rng, ctx.scale(36, 300)):
+        n += 1
+        f = crc_pair_case(case)
         if f:
             fails.append(f)
     for _ in range(ctx.scale(3, 20)):
